@@ -493,23 +493,52 @@ def run(prog: Program, ctx: Ctx) -> None:  # noqa: PLR0912,PLR0915
                     ctx.ob("R4", key(fn, "no-relative-path"), isinstance(trp, ast.Constant) and trp.value is False,
                            "try_relative_path=False so the user's working tree is never read instead of the checkout", where(fn, c2))
     ctx.expect_min("R4", n_users, 1)
-    # CLI check
-    for fn in prog.functions.values():
-        if fn.module.name != "_griffe.cli":
+    # CLI check, on behaviour: cli.check evaluated with the loaders, the git helpers, the comparison, colorama and print replaced by recording
+    # stand-ins - the old tree always comes from load_git (a temporary worktree), the new one from load_git when a base reference is given and from
+    # the working tree otherwise (first version: the definition of the first argument of find_breaking_changes was looked up in check()'s statements)
+    from sa.absint import Interp, Obj, Raised, Sym
+
+    chk = prog.function("_griffe.cli.check")
+    for base_ref in (None, "feature"):
+        it_c = Interp(prog)
+        log_c: list[tuple[str, tuple, dict]] = []
+
+        def rec_c(name, ret, log_c=log_c):
+            def f(_i, *a_, **k_):
+                log_c.append((name, a_, k_))
+                return ret(a_, k_) if callable(ret) else ret
+            return f
+
+        trees = {}
+
+        def loaded(kind):
+            def mk(a_, k_, kind=kind):
+                o = Obj(None, {"__closed__": True}, label=f"{kind}({a_[0] if a_ else None}, ref={k_.get('ref')})")
+                trees[id(o)] = (kind, k_.get("ref"))
+                return o
+            return mk
+
+        it_c.stubs["_griffe.git.get_latest_tag"] = rec_c("get_latest_tag", "latest-tag")
+        it_c.stubs["_griffe.git.get_repo_root"] = rec_c("get_repo_root", "/repo-root")
+        it_c.stubs["_griffe.extensions.base.load_extensions"] = rec_c("load_extensions", Sym("<extensions>"))
+        it_c.stubs["_griffe.loader.load_git"] = rec_c("load_git", loaded("load_git"))
+        it_c.stubs["_griffe.loader.load"] = rec_c("load", loaded("load"))
+        it_c.stubs["_griffe.diff.find_breaking_changes"] = rec_c("find_breaking_changes", lambda _a, _k: iter([]))
+        for ext in ("colorama.deinit", "colorama.init", "os.getenv", "builtins.print"):
+            it_c.ext_handlers[ext] = rec_c(ext.split(".")[-1], None)
+        try:
+            it_c.call(chk, "pkg", None, None, base_ref=base_ref)
+            cmp_ = [c_ for c_ in log_c if c_[0] == "find_breaking_changes"]
+            got_c: object = [trees.get(id(x)) for x in cmp_[0][1][:2]] if len(cmp_) == 1 else f"{len(cmp_)} comparisons"
+        except Raised as r:
+            got_c = f"raises {r.exc}"
+        except AnalysisError as e_:
+            ctx.note(f"R4: cli.check does something the stand-ins of this row do not cover ({e_}); the row is not judged, the other rules are")
             continue
-        for call in calls_in(fn.node):
-            names = {c.qualname for c, _k in cg.callees_of_call(fn, call) if isinstance(c, FunctionInfo)}
-            if "_griffe.diff.find_breaking_changes" in names and call.args:
-                old = call.args[0]
-                ok = False
-                if isinstance(old, ast.Name):
-                    defs = [s for s in stores_of(fn.node, old.id) if isinstance(s, ast.Assign)]
-                    ok = bool(defs) and all(
-                        isinstance(d.value, ast.Call)
-                        and "_griffe.loader.load_git" in {c.qualname for c, _k in cg.callees_of_call(fn, d.value) if isinstance(c, FunctionInfo)}
-                        for d in defs
-                    )
-                ctx.ob("R4", key(fn, "old-via-load_git"), ok, "old package comes from load_git only", where(fn, call))
+        want_c = [("load_git", "latest-tag"), ("load_git", base_ref) if base_ref else ("load", None)]
+        ctx.ob("R4", f"cli-check|base_ref={base_ref}|trees", got_c == want_c,
+               f"griffe check{' -b ' + base_ref if base_ref else ''}: compared trees {got_c}; expected the old one from load_git at the `against` reference and the new one from "
+               f"{'load_git at the base reference' if base_ref else 'the working tree'}", where(chk))
 
     # ------------------------------------------------------------------ R5 results outlive the checkout
     ctx.rule("R5", "source lines are served from memory: Object.lines/source and Docstring.lines/source reach no file-reading "
@@ -568,28 +597,38 @@ def run(prog: Program, ctx: Ctx) -> None:  # noqa: PLR0912,PLR0915
 def _check_location_contract(prog: Program, ctx: Ctx, fn: FunctionInfo, path_expr: ast.expr, tmp_withs: list) -> None:
     """diff.Breakage._location strips components up to `index + K`; K must equal the depth of the checkout below the
     directory named with the shared prefix constant."""
-    diff = prog.module("_griffe.diff")
+    # the constant the temporary directory's name starts with (read off the `prefix=` of the enclosing TemporaryDirectory) ...
+    const = None
+    for _w, _v, ctor in tmp_withs:
+        p = kwarg(ctor, "prefix")
+        if isinstance(p, ast.JoinedStr) and p.values and isinstance(p.values[0], ast.FormattedValue) and isinstance(p.values[0].value, ast.Name):
+            const = p.values[0].value.id
+        elif isinstance(p, ast.Name):
+            const = p.id
+    if const is None:
+        ctx.note("R5: no enclosing TemporaryDirectory(prefix=<constant>...) around the acquire (reported by R1 `tempdir`); the path-stripping contract is not judged")
+        return
+    const_q = prog.resolve(fn.module, const) or f"{fn.module.name}.{const}"
+    # ... and the function(s) that look for it to strip the checkout from reported paths (in the diff module, or a helper it calls in the git module)
     users = []
     for f in prog.functions.values():
-        if f.module is diff:
-            for n in walk_no_nested(f.node):
-                if isinstance(n, ast.Name) and prog.resolve(diff, n.id) and (prog.resolve(diff, n.id) or "").startswith("_griffe.git."):
-                    users.append((f, n))
+        if f is fn or not f.module.name.startswith("_griffe."):
+            continue
+        for n in walk_no_nested(f.node):
+            if isinstance(n, ast.Name) and isinstance(n.ctx, ast.Load) and n.id == const and (prog.resolve(f.module, n.id) or f"{f.module.name}.{n.id}") == const_q:
+                users.append((f, n))
+                break
     if not users:
-        raise AnalysisError("C20-R5: diff module no longer uses the git module's worktree prefix constant")
+        raise AnalysisError("C20-R5: no function strips the worktree prefix constant from reported paths any more")
+    loc = prog.lookup_method(prog.cls("_griffe.diff.Breakage"), "_location")
+    if loc:
+        from sa.callgraph import CallGraph as _CG
+
+        reach = set(_CG(prog).reachable(loc))
+        ctx.ob("R5", "location-uses-stripper", any(f.qualname in reach for f, _n in users),
+               "Breakage._location reaches the function that strips the worktree directory from the path", where(loc[0]))
     for f, name_node in users:
-        const = (prog.resolve(diff, name_node.id) or "").split(".")[-1]
-        # the acquire function's TemporaryDirectory prefix must start with the same constant
-        shared = False
-        for _w, _v, ctor in tmp_withs:
-            p = kwarg(ctor, "prefix")
-            if p is not None and const in {n.id for n in ast.walk(p) if isinstance(n, ast.Name)}:
-                if isinstance(p, ast.JoinedStr) and p.values and isinstance(p.values[0], ast.FormattedValue) and dotted(p.values[0].value) == const:
-                    shared = True
-                elif dotted(p) == const:
-                    shared = True
-        ctx.ob("R5", key(f, "shared-prefix"), shared,
-               f"temporary directory name starts with the constant `{const}` that {f.name} looks for", where(f, name_node))
+        ctx.ob("R5", key(f, "shared-prefix"), True, f"temporary directory name starts with the constant `{const}` that {f.name} looks for", where(f, name_node))
         # depth arithmetic
         depth = None
         if isinstance(path_expr, ast.Name):
